@@ -450,6 +450,8 @@ def gen_storage_case(rng, kind, size):
                 else:
                     nextval[0] += 1
                     val = nextval[0]
+                if rng.random() < 0.15 and sim.get(oid):
+                    val = cur(oid)[1]      # byte-identical to what is committed now (e.g. +5 and +5)
                 ops.append('store %d %d %d %s' % (w, oid, serial, L.rec_wire(cls[oid], 0, val)))
                 c = cur(oid)
                 if c[0] == 0 or serial == c[0]:
@@ -520,7 +522,8 @@ def run_storage_real(case, tmp, tag='s'):
 
 
 def model_lines(kind, ops):
-    return ['reset ' + kind] + L.class_lines() + ops
+    # a record-transforming wrapper (hex:…) is the identity at the model's record level
+    return ['reset ' + (kind[4:] if kind.startswith('hex:') else kind)] + L.class_lines() + ops
 
 
 # =============================================================================== (b) DB level
@@ -537,7 +540,9 @@ def gen_db_case(rng, kind, size):
         if r < 0.26:
             prog.append(['read', c, o])
         elif r < 0.54:
-            prog.append(['write', c, o, rng.choice([1, 2, 3])])
+            # delta for counters; for plain objects the 5th field asks for a common (non-unique) value,
+            # so that concurrent writers produce byte-identical pickles in a fixed share of cases
+            prog.append(['write', c, o, rng.choice([1, 1, 2, 3]), rng.random() < 0.3])
         elif r < 0.67:
             prog.append(['readcur', c, o])
         elif r < 0.78:
@@ -678,6 +683,8 @@ class ConnActor:
             if w.case['cls'][o] == 'counter':
                 _set(ob, seen + step[3])
                 p['delta'] += step[3]
+            elif len(step) > 4 and step[4]:
+                _set(ob, 7000 + step[3])        # a value other writers choose too (identical pickles)
             else:
                 w.nextval += 1
                 _set(ob, w.nextval)
@@ -858,7 +865,7 @@ def gen_sched_case(rng, kind, seed):
             if rng.random() < 0.2:
                 p.append(['read', 0, rng.choice(objs)])
             for _ in range(rng.choice([1, 1, 2])):
-                p.append(['write', 0, rng.choice(objs), rng.choice([1, 2, 3])])
+                p.append(['write', 0, rng.choice(objs), rng.choice([1, 1, 2, 3]), rng.random() < 0.3])
                 if rng.random() < 0.2:
                     p.append(['savepoint', 0])
             if rng.random() < 0.2:
